@@ -199,7 +199,7 @@ def linking_loop(chk):
                     return False
                 return None
 
-            it = Interp(prog, fi, decide=decide, unroll=2)
+            it = Interp(prog, fi, decide=decide, unroll=2, inline=lambda f, ct, fi=fi: f.cls is fi.cls and f.name not in ("translate_hierarchy", "construct", "load_name"))
             outs = it.run()
             chk.count(len(outs))
             for o in outs:
